@@ -21,6 +21,14 @@ def tweak(rng, u):
     cfgs = []
     for c in u['configs']:
         cfgs.append(c)
+    if 'bb:1' in names and rng.random() < 0.5:
+        # the dependent lexicon is installed BEFORE the lexicon it requires: the dependency is resolved when the provider
+        # arrives (extensions stay after their bases: only bb:1 moves)
+        bb = [x for x in u['resources'] if x[0] == 'bb:1'][0]
+        u['resources'] = [bb] + [x for x in u['resources'] if x[0] != 'bb:1']
+    if 'ba:1' in names and 'ba:2' in names:
+        # two versions sharing every synset id: one expands the other
+        cfgs += [{'lexicon': 'ba:2', 'expand': 'ba:1'}, {'lexicon': 'ba:1', 'expand': 'ba:2'}]
     # make sure every kind of expand argument occurs
     base = rng.choice(names)
     others = [n for n in names if n != base] or [base]
